@@ -103,7 +103,7 @@ pub struct Cmp {
 /// The differential oracle on one source text.
 pub fn compare(src: &str, inputs: &Inputs, n: u64, sched: bool, cmp_state: bool) -> Cmp {
     let mut c = Cmp { fail: None, compiled: false, samples: 0, n_out: 0, varying: false, reject_reason: None, discard: None };
-    let o = RunOpts { n, sched, want_state: true, want_counts: false };
+    let o = RunOpts { n, sched, want_state: true, want_counts: false, want_trace: false };
     let vm = exec::run_vm(src, inputs, &o);
     let wa = exec::run_wasm(src, inputs, &o);
     macro_rules! fail {
